@@ -162,7 +162,30 @@ RECT = dict(
     constants={"xBorder": ("xBorder", "Rat"), "yBorder": ("yBorder", "Rat")},
 )
 
-JOBS = {"rect": RECT, "comparators": COMPARATORS, "geometry": GEOMETRY, "makepath": MAKEPATH, "sepdir": SEPDIR, "tri": TRI, "seppair": SEPPAIR, "pindirs": PINDIRS}
+# ---- libvpsc arithmetic kernels: Variable::position / unscaledPosition / dfdv, Constraint::slack, PositionStats::addVariable
+_VARF = {"desiredPosition": ("desiredPosition", "Rat"), "weight": ("weight", "Rat"), "scale": ("scale", "Rat"), "offset": ("offset", "Rat")}
+VPSCK = dict(
+    ns="AdaptaVerif.Gen.VpscK",
+    out="lean/AdaptaVerif/Gen/VpscK.lean",
+    imports=["AdaptaVerif.Model.VpscKeys"],
+    opens=["AdaptaVerif.Model.VpscKeys"],
+    types={"Variable": "VarK"}, ptr_vals=["Variable"],
+    fields={("VarK", f): "Rat" for f in ["desiredPosition", "weight", "scale", "offset"]},
+    parts=[
+        dict(src="cola/libvpsc/block.cpp", functions=["position", "unscaledPosition", "dfdv"],
+             filters={"position": "Variable::position", "unscaledPosition": "Variable::unscaledPosition", "dfdv": "Variable::dfdv"},
+             this_struct=("self", "VarK", _VARF),
+             paths={"this.block.ps.scale": ("self.bScale", "Rat"), "this.block.posn": ("self.bPosn", "Rat")}),
+        dict(src="cola/libvpsc/block.cpp", functions=["slack"], filters={"slack": "Constraint::slack"},
+             this_struct=("self", "ConK", {"gap": ("gap", "Rat"), "unsatisfiable": ("unsatisfiable", "Bool"), "needsScaling": ("needsScaling", "Bool")}),
+             paths={"this.left": ("self.left", "VarK"), "this.right": ("self.right", "VarK"),
+                    "this.left.scale": ("self.left.scale", "Rat"), "this.right.scale": ("self.right.scale", "Rat")}),
+        dict(src="cola/libvpsc/block.cpp", functions=["addVariable"], filters={"addVariable": "PositionStats::addVariable"},
+             this_struct=("self", "PosStats", {"scale": ("scale", "Rat"), "AB": ("AB", "Rat"), "AD": ("AD", "Rat"), "A2": ("A2", "Rat")})),
+    ],
+)
+
+JOBS = {"vpsck": VPSCK, "rect": RECT, "comparators": COMPARATORS, "geometry": GEOMETRY, "makepath": MAKEPATH, "sepdir": SEPDIR, "tri": TRI, "seppair": SEPPAIR, "pindirs": PINDIRS}
 
 def regenerate(names, ROOT, REPO):
     info = {}
